@@ -61,17 +61,22 @@ func wantChain(tok string, F int) string {
 }
 
 // barrier: requests that carry X-Verif-Barrier "<name>/<n>" meet inside the FIRST context function (all n of them, or
-// whoever arrived within 2 s), so that the context-function stage of n requests of different clients overlaps.
+// whoever arrived within rvBound - see rendezvous.go), so that the context-function stage of n requests of different
+// clients overlaps.
 var barriers sync.Map // name -> *barrierState
 
 type barrierState struct {
 	mu      sync.Mutex
 	arrived int
+	met     bool // all n were inside at the same time
+	broken  bool // a participant gave up waiting (watchdog): everybody is released, later arrivals do not wait
 	ch      chan struct{}
 }
 
 var barrierMet atomic.Int64
 
+// meet never holds a request longer than rvBound: a library that lets the requests through the context functions one
+// at a time makes the first participant give up, which releases all the others (present and future) at once.
 func meet(r *http.Request) {
 	v := r.Header.Get("X-Verif-Barrier")
 	i := strings.LastIndex(v, "/")
@@ -83,15 +88,36 @@ func meet(r *http.Request) {
 	b := x.(*barrierState)
 	b.mu.Lock()
 	b.arrived++
-	if b.arrived == n {
+	if b.arrived == n && !b.broken {
+		b.met = true
 		close(b.ch)
 		barrierMet.Add(1)
 	}
 	b.mu.Unlock()
+	t := time.NewTimer(rvBound)
+	defer t.Stop()
 	select {
 	case <-b.ch:
-	case <-time.After(2 * time.Second):
+	case <-t.C:
+		b.mu.Lock()
+		if !b.met && !b.broken {
+			b.broken = true
+			close(b.ch)
+		}
+		b.mu.Unlock()
 	}
+}
+
+// barrierOutcome tells whether the context-function barrier of a round was met and forgets it.
+func barrierOutcome(name string) (met, used bool) {
+	x, ok := barriers.LoadAndDelete(name)
+	if !ok {
+		return false, false
+	}
+	b := x.(*barrierState)
+	b.mu.Lock()
+	defer b.mu.Unlock()
+	return b.met, true
 }
 
 func ctxFn1B(ctx context.Context, r *http.Request) context.Context {
@@ -307,6 +333,7 @@ type scen struct {
 	curBroken  atomic.Bool  // a request was given up on (watchdog): "the one request in flight" is not known any more
 
 	released sync.Map // gate name -> true, set by the harness right before it opens the gate
+	rv       rvScen   // rendezvous bookkeeping and circuit breakers (harness goroutine only)
 
 	mu    sync.Mutex
 	obs   []obs
@@ -734,9 +761,11 @@ func run(r *vh.Run, sc *scen, rounds int) {
 		}
 	}
 	maxInHandler.Store(0)
-	// circuit breaker: a stage that does not reach its gate switches the lock-step rounds off. Without a middleware the
-	// filters and the resource handler do not know which request they run for while clients overlap: no lock-step rounds.
+	// Without a middleware the filters and the resource handler do not know which request they run for while clients
+	// overlap: no lock-step rounds. Circuit breakers (rendezvous.go): a rendezvous that stays incomplete releases its
+	// participants, counts as "overlap not achieved" and, when repeated, switches that barrier off.
 	stageGating := len(sc.stack) > 0
+	ctxBarrier := true // this round's calls meet inside the first context function (set per round by the harness loop)
 	allIn := map[string]bool{}     // "<round>/<what>": all K requests of that stage were inside at the same time
 	var notesAccepted atomic.Int64 // notification POSTs the server accepted
 	var sideFailed atomic.Int64    // prompts/get, resources/read answers that were not results
@@ -773,7 +802,7 @@ func run(r *vh.Run, sc *scen, rounds int) {
 		id := `"` + nonce + `"`
 		call := func() {
 			po := kit.PostOpts{WantID: id, Wait: 60 * time.Second}
-			if !sc.sequential {
+			if !sc.sequential && ctxBarrier {
 				po.Headers = map[string]string{"X-Verif-Barrier": fmt.Sprintf("%s/%d", gate, K)}
 			}
 			ex := cl.c.Post(ctx, []byte(fmt.Sprintf(`{"jsonrpc":"2.0","id":%s,"method":"tools/call","params":{"name":"ctxecho","arguments":{"gate":"%s","nonce":"%s"}}}`, id, gate, nonce)), po)
@@ -965,6 +994,13 @@ func run(r *vh.Run, sc *scen, rounds int) {
 		if gated {
 			sfx = "g"
 		}
+		rwhere := fmt.Sprintf("%s K=%d round %d", where, K, round)
+		ctxBarrier = sc.rv.on(r, "ctxfn")
+		// the held tool calls: with the breaker tripped the gate is open before the calls arrive (nothing is held)
+		callOn := sc.rv.on(r, "call")
+		if !callOn {
+			sc.open(gate)
+		}
 		var wg sync.WaitGroup
 		for _, cl := range clients {
 			wg.Add(1)
@@ -973,33 +1009,44 @@ func run(r *vh.Run, sc *scen, rounds int) {
 				runClient(cl, round, gate, sfx)
 			}(cl)
 		}
-		// all K gated handlers are inside at once, then released together
-		got := kit.G.AwaitWaiters(gate, K, 20*time.Second)
-		r.Max("handlers_overlapping_"+string(kind), int64(got))
-		if got < K {
-			r.Inconclusive(fmt.Sprintf("%s K=%d round %d: only %d handlers overlapped", where, K, round, got))
-		} else {
-			allIn[fmt.Sprintf("%d/call", round)] = true
+		// all K gated handlers are inside at once, then released together (released after rvBound in any case)
+		callMet := false
+		if callOn {
+			got := kit.G.AwaitWaiters(gate, K, rvBound)
+			r.Max("handlers_overlapping_"+string(kind), int64(got))
+			callMet = got == K
+			sc.rv.result(r, "call", callMet, fmt.Sprintf("%s (%d of %d tool handlers inside)", rwhere, got, K))
+			if callMet {
+				allIn[fmt.Sprintf("%d/call", round)] = true
+			}
 		}
 		if gated {
-			// lock-step: while the K calls are held, the K requests of each stage meet at the stage's gate
+			// lock-step: while the K calls are held, the K requests of each stage meet at the stage's gate; a stage
+			// whose requests do not all get there is released after rvBound and judged by its answers alone
 			for _, l := range sideStages {
 				sg := sc.stageGate(l.what, round)
-				if got == K && stageGating {
-					n := kit.G.AwaitWaiters(sg, K, 20*time.Second)
+				aspect := "stage:" + l.what
+				switch {
+				case !callMet:
+					sc.rv.skipped(r, aspect)
+				case sc.rv.on(r, aspect):
+					n := kit.G.AwaitWaiters(sg, K, rvBound)
 					r.Max("stage_overlapping_"+string(kind), int64(n))
 					if n == K {
 						allIn[fmt.Sprintf("%d/%s", round, l.what)] = true
-					} else {
-						r.Inconclusive(fmt.Sprintf("%s K=%d round %d: only %d of %d %s requests reached the stage gate; lock-step rounds switched off for this scenario", where, K, round, n, K, l.what))
-						stageGating = false
 					}
+					sc.rv.result(r, aspect, n == K, fmt.Sprintf("%s (%d of %d %s requests inside their stage)", rwhere, n, K, l.what))
 				}
 				sc.open(sg)
 			}
 		}
 		sc.open(gate)
 		wg.Wait()
+		if ctxBarrier {
+			if met, used := barrierOutcome(fmt.Sprintf("%s/%d", gate, K)); used {
+				sc.rv.result(r, "ctxfn", met, rwhere+" (first context function)")
+			}
+		}
 		awaitNotes(round)
 		judge(r, sc, sc.take(), sessOf, allIn)
 	}
@@ -1177,7 +1224,7 @@ func judge(r *vh.Run, sc *scen, all []obs, sessOf map[string]string, allIn map[s
 		}
 		if sc.extended && o.Detached && o.Stage == "handler" && o.Req.Round == 1 && o.Req.Tok != "tok-0" && !extSampled[string(kind)+sc.mode()] && len(sc.stack) == 2 {
 			extSampled[string(kind)+sc.mode()] = true
-			if kind == kit.SJSON || (kind == kit.SLSSE && sc.sequential) {
+			if kind == kit.SJSON && !sc.sequential { // (one sample slot is left to the shared-computation class)
 				r.Sample(map[string]interface{}{"kind": kind, "handler_below_detaching_middleware": o})
 			}
 		}
@@ -1361,12 +1408,14 @@ func main() {
 		}
 		r.SetAdd("middleware_stacks", stackName(stack))
 	}
-	if r.Counter("mwsweep_detached_session_objects_verified") == 0 || r.Counter("detached_handler_fallback_session_is_requesters") == 0 || r.Counter("mwsweep_sequential_observations_with_session") == 0 {
-		r.Fatal("the middleware-style sweep observed no session below a detaching middleware / none in sequential mode: that part of the property was not exercised")
-	}
-	if r.Counter("session_data_own_reads") == 0 || r.Counter("live_session_objects_compared") == 0 || r.Counter("stateless_live_session_objects_compared") == 0 {
-		r.Fatal("no session data was read back / no live session objects were compared (stateless servers included): the session part of the property was not exercised")
-	}
-	r.Finish("K = 2 / 8 / 16-32 raw clients, each with a unique header token, against Streamable (stateful / stateless, JSON / SSE answers; sessions disabled with K = 8) and legacy SSE servers configured with two HTTP context functions (the second derives its value from the first's; a second sweep registers 1, 3-7, 9 and 12 of them, each appending to a chain value, and lets the K requests of a round meet inside the first context function so that the context-function stages overlap), a tool / prompt / resource list filter keyed on the token, and a middleware; per round every client issues one gated tool call (all K handlers are inside at the same time, then released together) and, next to it, three list requests, a prompts/get, a resources/read and a notification with a registered server-side handler; in every second round these six stages are lock-step too (the K requests of a stage meet at a gate inside the filter / handler while the K calls are held). Each echo (context values, session via both accessors, server handle, notification sender by effect) and each list must be the requester's own; every stage records the session object it is handed (pointer, id, both accessors) and uses it as state: the middleware (the notification handler on its path) reads what is on the session, notes the derived token and the request id on it, every stage notes the request id under its own key, waits, and reads all of it back - a value noted for another client is a violation in every configuration, a note of the same request that is gone is one, and requests of different clients inside at the same time must hold different session objects. Observations are joined to requests through the request id. A last sweep varies what the middlewares do with the context they pass inward - stacks of 0 to 3 middlewares (a fixed list, plus stacks drawn from the seed; thorough: all stacks of length <= 2) of the styles pass-through, derive (WithValue + WithTimeout), detach (a fresh context.Background(), optionally with a timeout, carrying only the copied context-function values, none of the library's session / server / sender keys) and run-next-in-a-goroutine, every middleware treating every request (handshake included) in its style - on Streamable stateful / stateless (JSON / SSE) and legacy SSE, with 3 clients overlapping as before and strictly sequentially (client 0 connects and is served alone, one request at a time, then client 1, ...; repeated). Every middleware of the stack observes like the others; the session any stage obtains through either accessor must be the requester's (id) and, within one request, the very object the library handed the outermost middleware; the context-function values must be the request's own. Below a detaching middleware only the tool handler's ClientSessionFromContext (the documented fallback) is required to be there; a missing GetSessionFromContext / server handle / notification sender / session in filters, prompt and resource handlers and inner middlewares is counted (detached_*), not judged. Distinct = (server kind, stage, K) resp. (server kind, middleware stack, overlapping | sequential, stage).",
-		[]string{"presence is required only where documented: context-function values everywhere (not in notification handlers), the session in handlers and middlewares of servers that issue session ids, server handle and sender in tool handlers", "stateless sessions: the statement promises isolation between clients; that the library uses one temporary session per request is not part of it, so a value carried over from another request of the SAME client is only counted (stateless_carry_over_same_client), not a violation", "session objects are compared by pointer only between requests that were inside at the same time, and between the stages of one request while its outermost middleware still holds the session (address reuse after a request has ended proves nothing)", "a middleware that replaces the context with one kept from ANOTHER request is application misbehaviour outside the statement: not exercised", "what a detached context (fresh context.Background() + copied application values) still offers besides the tool handler's session fallback is left open by the statement: counted only"})
+	sharedSweep(r)
+	// non-vacuity (Require, not Fatal: violations found by the value oracle are reported first)
+	r.Require(r.Counter("mwsweep_detached_session_objects_verified") > 0 && r.Counter("detached_handler_fallback_session_is_requesters") > 0 && r.Counter("mwsweep_sequential_observations_with_session") > 0,
+		"the middleware-style sweep observed no session below a detaching middleware / none in sequential mode: that part of the property was not exercised")
+	r.Require(r.Counter("session_data_own_reads") > 0 && r.Counter("live_session_objects_compared") > 0 && r.Counter("stateless_live_session_objects_compared") > 0,
+		"no session data was read back / no live session objects were compared (stateless servers included): the session part of the property was not exercised")
+	rvVerdict(r)
+	sharedVerdict(r)
+	r.Finish("K = 2 / 8 / 16-32 raw clients, each with a unique header token, against Streamable (stateful / stateless, JSON / SSE answers; sessions disabled with K = 8) and legacy SSE servers configured with two HTTP context functions (the second derives its value from the first's; a second sweep registers 1, 3-7, 9 and 12 of them, each appending to a chain value, and lets the K requests of a round meet inside the first context function so that the context-function stages overlap), a tool / prompt / resource list filter keyed on the token, and a middleware; per round every client issues one gated tool call (all K handlers are inside at the same time, then released together) and, next to it, three list requests, a prompts/get, a resources/read and a notification with a registered server-side handler; in every second round these six stages are lock-step too (the K requests of a stage meet at a gate inside the filter / handler while the K calls are held). Each echo (context values, session via both accessors, server handle, notification sender by effect) and each list must be the requester's own; every stage records the session object it is handed (pointer, id, both accessors) and uses it as state: the middleware (the notification handler on its path) reads what is on the session, notes the derived token and the request id on it, every stage notes the request id under its own key, waits, and reads all of it back - a value noted for another client is a violation in every configuration, a note of the same request that is gone is one, and requests of different clients inside at the same time must hold different session objects. Observations are joined to requests through the request id. A last sweep varies what the middlewares do with the context they pass inward - stacks of 0 to 3 middlewares (a fixed list, plus stacks drawn from the seed; thorough: all stacks of length <= 2) of the styles pass-through, derive (WithValue + WithTimeout), detach (a fresh context.Background(), optionally with a timeout, carrying only the copied context-function values, none of the library's session / server / sender keys) and run-next-in-a-goroutine, every middleware treating every request (handshake included) in its style - on Streamable stateful / stateless (JSON / SSE) and legacy SSE, with 3 clients overlapping as before and strictly sequentially (client 0 connects and is served alone, one request at a time, then client 1, ...; repeated). Every middleware of the stack observes like the others; the session any stage obtains through either accessor must be the requester's (id) and, within one request, the very object the library handed the outermost middleware; the context-function values must be the request's own. Below a detaching middleware only the tool handler's ClientSessionFromContext (the documented fallback) is required to be there; a missing GetSessionFromContext / server handle / notification sender / session in filters, prompt and resource handlers and inner middlewares is counted (detached_*), not judged. Distinct = (server kind, stage, K) resp. (server kind, middleware stack, overlapping | sequential, stage). Every rendezvous (first context function, held tool calls, lock-step stages) is a watchdog-bounded one: when not all participants are inside within 5 s they are released anyway, the round is booked as overlap-not-achieved (rendezvous_unmet, an INCONCLUSIVE line; never a violation and never held) and its answers are still judged by the value oracle; two consecutive unmet rendezvous of an aspect switch that barrier off for the rest of the scenario, three such scenarios for the rest of the run (rendezvous_skipped), and a run with more than a tenth of its rendezvous unmet or skipped ends without a verdict. Last class, shared computation between overlapping calls: 2 / 6 / 12-24 clients send tools/list, prompts/list, resources/list, resources/templates/list, tools/call, prompts/get and resources/read at the same time - every (method, slowness, shape) combination in seed order, shapes: all clients the same method | a mix of methods | bursts of three per client; the requests of different clients are identical down to the JSON-RPC id and the arguments, only the headers differ - against filters / handlers that are slow without containing a barrier (yield loops of 200-20000 Gosched, sleeps of 0.2-2 ms, or a gate the harness opens once all requests of the round went through the first context function, optionally with the first client sent ahead and held inside its filter before the others are sent); each answer must be the caller's own (list = what the filter admits for the caller's token, echo = the caller's context-function values and session); filters / handlers count the other requests inside the same user code when they enter (shared_overlapping_pairs|<method>), an answer becomes a distinct case (server kind, method, slowness, shape) only in a round whose requests really overlapped inside that user code, and the run ends without a verdict when the list filters did not overlap in at least half of their same-method rounds.",
+		[]string{"a library that serialises or coalesces overlapping requests does not violate the statement by that alone: unmet rendezvous / missing overlap make the run inconclusive (INCONCLUSIVE lines, exit 3 when frequent), only an answer carrying another caller's values is a violation", "presence is required only where documented: context-function values everywhere (not in notification handlers), the session in handlers and middlewares of servers that issue session ids, server handle and sender in tool handlers", "stateless sessions: the statement promises isolation between clients; that the library uses one temporary session per request is not part of it, so a value carried over from another request of the SAME client is only counted (stateless_carry_over_same_client), not a violation", "session objects are compared by pointer only between requests that were inside at the same time, and between the stages of one request while its outermost middleware still holds the session (address reuse after a request has ended proves nothing)", "a middleware that replaces the context with one kept from ANOTHER request is application misbehaviour outside the statement: not exercised", "what a detached context (fresh context.Background() + copied application values) still offers besides the tool handler's session fallback is left open by the statement: counted only"})
 }
